@@ -932,3 +932,46 @@ PROPS["C17"] = dict(lean=["ChfVerif.Props.C17"], explore=explore_c17, gen=[gen_t
                     trusted=["fiorix/go-diameter (AVP framing, dictionary look-up rules, reflection-based Marshal/Unmarshal) is a modelled library: "
                              "its basic data formats are modelled in Lean and compared; message-level fidelity is observed, not proved",
                              "Time AVPs are second-granular (RFC 6733): generated times are whole seconds"])
+
+
+# ------------------------------------------------------------------ C20
+
+def explore_c20(ctx, res, replay_ops=None):
+    n = n_for(ctx, 60, 1500)
+    r = ctx.stream("config", n, ops=replay_ops, parallel=14)
+    for i, (op, im, mo) in enumerate(zip(r.ops, r.impl, r.model)):
+        t = op.split()
+        res.evaluations += 1
+        removed = bin(int(t[2])).count("1")
+        res.dist["removed=%d" % min(removed, 3)] += 1
+        res.dist["scheme=" + t[3]] += 1
+        res.dist["impl:" + im] += 1
+        res.nontrivial.add(op)
+        if len(res.samples) < 5:
+            res.sample({"op": op, "impl": im, "model": mo})
+        accepted_impl = im in ("started", "crash")
+        accepted_model = mo.startswith("accepted")
+        if accepted_impl != accepted_model:
+            res.disagreements += 1
+            res.violation("correspondence", "config: validation outcome differs (impl %s, model %s)" % (im, mo), [op], found_input=False)
+        res.traces_validated += 1
+        if im == "crash":
+            res.violation("oracle", "C20: a configuration accepted by validation crashed the start-up", [op, "# impl: " + im])
+        if im not in ("started", "crash", "rejected"):
+            res.violation("oracle", "C20: unexpected outcome " + im, [op])
+        # invalid ones must be rejected
+        bad = t[3] not in ("http", "https") or t[4] != "ok"
+        if bad and im != "rejected":
+            res.violation("oracle", "C20: configuration with scheme=%s services=%s was not rejected" % (t[3], t[4]), [op, "# impl: " + im])
+    res.extra["exhaustive_subspace"] = "baseline, all single and all pairwise removals of 20 items x {http, https}" + (
+        ", all triples" if ctx.tier == "thorough" else "")
+    res.rule = ("YAML configurations derived from a valid baseline by removing subsets of 20 items (sections, TLS blocks, mandatory "
+                "scalars) and altering scheme (http/https/ftp/HTTP/absent) and serviceNameList (valid/unknown/empty); each is read by "
+                "factory.ReadConfig in its own process and, if accepted, the context, rating and account servers, the application "
+                "(SBI server) and the SBI listener are started; a panic in any goroutine kills the child = crash; distinct = variants")
+
+
+PROPS["C20"] = dict(lean=["ChfVerif.Props.C20"], explore=explore_c20, gen=[gen_table("config", "Config.lean")],
+                    trusted=["govalidator semantics (required/optional recursion) and yaml.v2 are modelled",
+                             "NRF registration and the FTP (CGF) server are not started (cgf.enable=false); MongoDB is the in-memory stand-in",
+                             "which sections the start-up code dereferences is hand-modelled (startsOK) and validated by starting every accepted variant"])
